@@ -99,6 +99,35 @@ def condition(line, n, locals_=None):
     return h
 
 
+def two_models(name, cmp):
+    """functions generated from one text + locals keep meaning what they meant when a SECOND, unrelated model is generated afterwards
+    with the same local names bound to other values (condition, penalty and constraint of model 1 are used after model 2 exists)"""
+    text = 'x0 %s %s + x1' % (cmp, name)
+    val, other = 0.5, -8.0
+
+    def h(ctx):
+        import mystic.symbolic as ms
+        _ob.RTOL = 0.0
+        x = ctx.reals('x', 2)
+        conds = L_flat(ms.generate_conditions(text, nvars=2, locals={name: val}))
+        pf = ms.generate_penalty(ms.generate_conditions(text, nvars=2, locals={name: val}))
+        cf = ms.generate_constraint(ms.generate_solvers(text, nvars=2, locals={name: val}))
+        # the second model: same names, other values, other tolerances
+        text2 = 'x1 %s %s - x0' % (cmp, name)
+        conds2 = L_flat(ms.generate_conditions(text2, nvars=2, locals={name: other, 'tol': 0.25, 'rel': 0.5}))
+        pf2 = ms.generate_penalty(ms.generate_conditions(text2, nvars=2, locals={name: other}))
+        cf2 = ms.generate_constraint(ms.generate_solvers(text2, nvars=2, locals={name: other, 'tol': 0.25, 'rel': 0.5}))
+        lhs, rhs = x[0], R(val) + x[1]
+        v = conds[0](list(x))
+        obs = [('condition-still-uses-its-own-local', eq(v, rhs - lhs) if cmp == '>=' else eq(v, lhs - rhs))]
+        obs.append(('penalty-still-zero-iff-its-own-relation', Iff(eq(pf(list(x)), 0), rel(cmp, lhs, rhs))))
+        y = L.vec(cf(list(x)))
+        obs.append(('constraint-still-solves-its-own-relation', rel(cmp, y[0], R(val) + y[1])))
+        obs.append(('penalty-of-constrained-point-is-zero', eq(pf(list(y)), 0)))
+        return obs
+    return h
+
+
 def named_locals(name, cmp):
     """an extra local used in the text ('x0 >= tau'): the condition, the penalty and the constraint built from the same text and
     locals all use the user's value, also when the name coincides with a math/numpy export (e, pi, tau, inf)"""
@@ -235,6 +264,8 @@ def instances(tier, seed):
     for name in ('a', 'tau', 'e', 'pi', 'inf', 'b_1'):
         for cmp in (('>=', '=') if name in ('a', 'tau') else ('>=',)):
             out.append(Instance('named-local/%s/%s' % (name, cmp), named_locals(name, cmp)))
+    for name, cmp in (('lo', '>='), ('hi', '<=')):
+        out.append(Instance('two-models/%s/%s' % (name, cmp), two_models(name, cmp)))
     groups = [LINES[0:2], LINES[2:5], [LINES[4], LINES[6]], [LINES[0], LINES[3], LINES[5]], LINES[7:10]]
     if not q:
         groups += [LINES[0:4], [LINES[1], LINES[4], LINES[8]], [LINES[5]], [LINES[6]], [LINES[2]]]
